@@ -90,6 +90,25 @@ def detect_variant():
 
 
 def run_case(ctx, drv, case, variant, record=None):
+    """never lets an exception of the code under test (or of decoding what it produced) escape:
+    it becomes a broken tie with the case as replay"""
+    try:
+        return _run_case(ctx, drv, case, variant, record)
+    except common.Infra:
+        raise
+    except Exception as e:  # noqa
+        import traceback
+        import uuid as _u
+        import klongpy.sys_fn_ipc as ipc
+        if not isinstance(ipc.uuid, type(_u)):
+            ipc.uuid = _u
+        ctx.mismatch("the harness could not drive NetworkClient through the case", case, "no exception",
+                     f"{type(e).__name__}: {e}\n" + traceback.format_exc()[-1500:])
+        ctx.count(json.dumps(case, sort_keys=True))
+        return dict(res=[], final=dict(lst="?", pending="?"), labels=[], crash=repr(e))
+
+
+def _run_case(ctx, drv, case, variant, record=None):
     from .c14_harness import Harness, HarnessHang, show_bytes
     kinds, stream, sched = case["callers"], [tuple(x) for x in case["stream"]], case["sched"]
     h = Harness(kinds, VALUES, stream, [VALUES[i] for i in FAIL], server=bool(case.get("server")))
